@@ -87,7 +87,7 @@ end
 __TUPLE_META.__add = function(a, b)
     local out = {}
     for x = 1, #a, 1 do
-        out[x] = a[x] + b[x]
+        out[x] = __ADD(a[x], b[x])
     end
     return __TUPLE(out)
 end
